@@ -105,11 +105,12 @@ CONE = {}
 # =====================================================================================================
 
 STAGES = {
-    "C01": {"nfa", "dfa", "flags", "joined", "simplified"},
+    "C01": {"nfa", "dfa", "flags", "joined", "simplified", "templates"},
+    "C06": {"templates"}, "C07": {"templates"}, "C08": {"templates"}, "C09": {"templates"}, "C10": {"templates"},
     "C02": {"nfa", "dfa", "tables"},
     "C03": {"joined", "simplified", "dispatch", "ruleset-count"},
     "C04": {"nfa", "dfa", "ctx-count", "tables"},
-    "C05": {"dfa", "simplified"},
+    "C05": {"dfa", "simplified", "templates"},
     "C11": {"tables"},
     "C12": {"nfa", "dfa", "flags", "joined", "simplified", "dispatch", "ruleset-count", "ctx-count", "tables"},
 }
